@@ -6,6 +6,16 @@
 //          preset to q                                    -> quat[4] | `error <message>`
 //   frame fp[3] fq[4] bp[3] bq[4]                         a body inside a frame: compiled body_pos[3] body_quat[4] of the body
 //   frame2 f1p[3] f1q[4] f2p[3] f2q[4] bp[3] bq[4]        a body inside a frame nested in a frame
+//   att <pk> <ck> <outer> <inner> <hdeg> <h0> <h1> <h2> <cdeg> <c0> <c1> <c2> <mdeg> <m0> <m1> <m2> O P G I B
+//          mjs_attach of an element of a child spec (compiler degree cdeg, eulerseq c0 c1 c2) to an element of a host spec
+//          (hdeg, h0 h1 h2) followed by mj_compile.  pk: attachment point 0 frame / 1 body / 2 site / 3 a site written in a
+//          third spec (mdeg, m0 m1 m2) whose body was attached to the host beforehand; ck: attached element
+//          0 body / 1 frame / 2 the whole child spec; outer = 1: the attachment frame / site lives in the frame O;
+//          inner = 1: the observed body lives in a frame I nested in the attached frame / the child's world.
+//          O P G I B = records `<type> pos[3] quat[4] axisangle[4] xyaxes[6] zaxis[3] euler[3]` (outer frame, attachment
+//          point, attached frame, inner frame, observed body)
+//                                                         -> body_pos[3] body_quat[4] of the observed body |
+//                                                            `error attach` | `error compile`
 // Oracle ops (no model counterpart; decimal numbers):
 //   pair <nstep> <nstate>      followed by <nstate> lines `qpos v...` / `qvel v...` / `ctrl v...`, description A, `end`,
 //                              description B, `end` (format of harness/mjbuild.h).  Both are compiled; the state is applied
@@ -15,6 +25,13 @@
 //             differently named objects> static=<same|f1,f2,...>` | `error ...`
 //   defaults <seed>            values through (nested) default classes vs set explicitly     -> same output format
 //   attach <seed>              a child spec attached by mjs_attach vs the same bodies inline
+//   apair <nstep> <nstate>     like `pair`, but each of the two descriptions is a sequence
+//                                  <host description> `end`
+//                                  { `child` <description> `end`                      another spec (index 1, 2, ...)
+//                                  | `deepcopy <spec> <0|1>`                          mjs_setDeepCopy
+//                                  | `attach <pspec> <body|frame|site> <name> <cspec> <body|frame|model> <name|~> <prefix|~> <suffix|~>`
+//                                  } `done`
+//                              spec 0 is compiled after the directives; sensor data is compared as well.
 //   setconst <nstep> <nstate>  state lines, description, `end`, then edit lines until `endedit`:
 //                                  `edit body <name> pos x y z` | `edit joint <name> armature v` |
 //                                  `edit joint <name> stiffness v` | `edit body <name> gravcomp v`
@@ -99,6 +116,90 @@ static void op_frame(char** tok, int n, int nested) {
   mj_deleteSpec(s);
 }
 
+// ---- att: the real mjs_attach on every (attachment point, attached element) combination
+typedef struct { int type; double v[23]; } AttRec;
+
+static int read_rec(char** tok, AttRec* r) {
+  if (!geti(tok[0], &r->type) || r->type < 0 || r->type > 4) return 0;
+  for (int i = 0; i < 23; i++) if (!getf(tok[1 + i], r->v + i)) return 0;
+  return 1;
+}
+static void set_pose(double* pos, double* quat, mjsOrientation* alt, const AttRec* r) {
+  memcpy(pos, r->v, 3 * sizeof(double)); memcpy(quat, r->v + 3, 4 * sizeof(double));
+  alt->type = (mjtOrientation)r->type;
+  memcpy(alt->axisangle, r->v + 7, 4 * sizeof(double)); memcpy(alt->xyaxes, r->v + 11, 6 * sizeof(double));
+  memcpy(alt->zaxis, r->v + 17, 3 * sizeof(double)); memcpy(alt->euler, r->v + 20, 3 * sizeof(double));
+}
+static void small_geom(mjsBody* b) {
+  mjsGeom* g = mjs_addGeom(b, NULL); g->type = mjGEOM_SPHERE; g->size[0] = 0.1; g->contype = 0; g->conaffinity = 0;
+}
+
+static void op_att(char** tok, int n) {
+  int k[16]; AttRec R[5];
+  if (n != 16 + 5 * 24) { printf("bad-op\n"); return; }
+  for (int i = 0; i < 16; i++) if (!geti(tok[i], k + i) || k[i] < 0) { printf("bad-op\n"); return; }
+  if (k[0] > 3 || k[1] > 2 || k[2] > 1 || k[3] > 1 || k[4] > 1 || k[8] > 1 || k[12] > 1) { printf("bad-op\n"); return; }
+  for (int i = 0; i < 3; i++) if (k[5 + i] < 1 || k[5 + i] > 126 || k[9 + i] < 1 || k[9 + i] > 126 || k[13 + i] < 1 || k[13 + i] > 126) { printf("bad-op\n"); return; }
+  for (int i = 0; i < 5; i++) if (!read_rec(tok + 16 + 24 * i, R + i)) { printf("bad-op\n"); return; }
+  int pk = k[0], ck = k[1], outer = k[2], inner = k[3];
+  mjSpec* host = mj_makeSpec();
+  host->compiler.degree = (mjtByte)k[4];
+  for (int i = 0; i < 3; i++) host->compiler.eulerseq[i] = (char)k[5 + i];
+  mjsBody* base = mjs_addBody(mjs_findBody(host, "world"), NULL);
+  mjs_setName(base->element, "base"); base->pos[2] = 1.0;
+  mjsJoint* bj = mjs_addJoint(base, NULL); bj->type = mjJNT_HINGE;
+  small_geom(base);
+  mjsFrame* fo = NULL;
+  mjSpec* mid = NULL;
+  mjsBody* sitebody = base;
+  if (pk == 3) {      // the site is written in a third spec, inside a body that is attached to the host first
+    mid = mj_makeSpec();
+    mid->compiler.degree = (mjtByte)k[12];
+    for (int i = 0; i < 3; i++) mid->compiler.eulerseq[i] = (char)k[13 + i];
+    sitebody = mjs_addBody(mjs_findBody(mid, "world"), NULL);
+    mjs_setName(sitebody->element, "mid"); sitebody->pos[0] = 0.25;
+    small_geom(sitebody);
+  }
+  if (outer && pk != 1) { fo = mjs_addFrame(sitebody, NULL); set_pose(fo->pos, fo->quat, &fo->alt, R + 0); }
+  mjsElement* point = base->element;
+  if (pk == 0) { mjsFrame* f = mjs_addFrame(base, fo); set_pose(f->pos, f->quat, &f->alt, R + 1); point = f->element; }
+  else if (pk >= 2) {
+    mjsSite* st = mjs_addSite(sitebody, NULL); set_pose(st->pos, st->quat, &st->alt, R + 1); mjs_setName(st->element, "point");
+    if (fo) mjs_setFrame(st->element, fo);
+    point = st->element;
+    if (pk == 3) {
+      mjsFrame* hf = mjs_addFrame(base, NULL); hf->pos[1] = 0.125;
+      point = mjs_attach(hf->element, sitebody->element, "m_", "") ? mjs_findElement(host, mjOBJ_SITE, "m_point") : NULL;
+    }
+  }
+  mjSpec* child = mj_makeSpec();
+  child->compiler.degree = (mjtByte)k[8];
+  for (int i = 0; i < 3; i++) child->compiler.eulerseq[i] = (char)k[9 + i];
+  mjsBody* cw = mjs_findBody(child, "world");
+  mjsFrame* g = NULL; mjsFrame* fi = NULL;
+  if (ck == 1) { g = mjs_addFrame(cw, NULL); set_pose(g->pos, g->quat, &g->alt, R + 2); }
+  if (inner && ck != 0) { fi = mjs_addFrame(cw, g); set_pose(fi->pos, fi->quat, &fi->alt, R + 3); }
+  mjsBody* b = mjs_addBody(cw, NULL); set_pose(b->pos, b->quat, &b->alt, R + 4);
+  mjs_setName(b->element, "b"); small_geom(b);
+  if (fi) mjs_setFrame(b->element, fi); else if (g) mjs_setFrame(b->element, g);
+  const mjsElement* what = ck == 0 ? b->element : ck == 1 ? g->element : child->element;
+  if (!point || !mjs_attach(point, what, "a_", "")) printf("error attach\n");
+  else {
+    mjModel* m = mj_compile(host, NULL);
+    int id = m ? mj_name2id(m, mjOBJ_BODY, "a_b") : -1;
+    if (!m) printf("error compile\n");
+    else if (id < 0) printf("error observed body missing\n");
+    else {
+      for (int i = 0; i < 3; i++) putf(m->body_pos[3 * id + i], i == 0);
+      for (int i = 0; i < 4; i++) putf(m->body_quat[4 * id + i], 0);
+      printf("\n");
+    }
+    if (m) mj_deleteModel(m);
+  }
+  mj_deleteSpec(host); mj_deleteSpec(child);
+  if (mid) mj_deleteSpec(mid);
+}
+
 // ------------------------------------------------------------------------------------------------ oracle helpers
 #define MAXSTATE 4096
 typedef struct { int nqpos, nqvel, nctrl; double qpos[MAXSTATE], qvel[MAXSTATE], ctrl[MAXSTATE]; } StateIn;
@@ -134,6 +235,7 @@ static double reldev(double a, double b) {
   return (d != d) ? INFINITY : d;
 }
 
+static int g_cmp_sensor = 0;   // apair: sensor data is part of the comparison
 static char static_diff[2000];
 
 static void sdiff(const char* f) {
@@ -167,6 +269,17 @@ static double static_numeric_dev(const mjModel* a, const mjModel* b) {
     for (int i = 0; i < 2 * a->nbody; i++) { double d = reldev(a->body_invweight0[i], b->body_invweight0[i]); if (d > mx) mx = d; }
   }
   if (a->nv == b->nv) for (int i = 0; i < a->nv; i++) { double d = reldev(a->dof_invweight0[i], b->dof_invweight0[i]); if (d > mx) mx = d; d = reldev(a->dof_armature[i], b->dof_armature[i]); if (d > mx) mx = d; }
+  if (a->nq == b->nq) for (int i = 0; i < a->nq; i++) { double d = reldev(a->qpos0[i], b->qpos0[i]); if (d > mx) mx = d; d = reldev(a->qpos_spring[i], b->qpos_spring[i]); if (d > mx) mx = d; }
+  if (a->njnt == b->njnt) for (int i = 0; i < 2 * a->njnt; i++) { double d = reldev(a->jnt_range[i], b->jnt_range[i]); if (d > mx) mx = d; }
+  if (a->ngeom == b->ngeom) {
+    for (int i = 0; i < 3 * a->ngeom; i++) { double d = reldev(a->geom_pos[i], b->geom_pos[i]); if (d > mx) mx = d; }
+    for (int i = 0; i < a->ngeom; i++) {   // q and -q are the same orientation
+      double dp = 0, dm = 0;
+      for (int j = 0; j < 4; j++) { double x = fabs(a->geom_quat[4 * i + j] - b->geom_quat[4 * i + j]), y = fabs(a->geom_quat[4 * i + j] + b->geom_quat[4 * i + j]); if (x > dp) dp = x; if (y > dm) dm = y; }
+      double d = dp < dm ? dp : dm; if (d != d) d = INFINITY; if (d > mx) mx = d;
+    }
+  }
+  if (a->ncam == b->ncam) for (int i = 0; i < 3 * a->ncam; i++) { double d = reldev(a->cam_pos[i], b->cam_pos[i]); if (d > mx) mx = d; }
   if (a->nu == b->nu) for (int i = 0; i < a->nu; i++) { double d = reldev(a->actuator_acc0[i], b->actuator_acc0[i]); if (d > mx) mx = d; }
   if (a->ntendon == b->ntendon) for (int i = 0; i < a->ntendon; i++) { double d = reldev(a->tendon_length0[i], b->tendon_length0[i]); if (d > mx) mx = d; d = reldev(a->tendon_invweight0[i], b->tendon_invweight0[i]); if (d > mx) mx = d; }
 #undef CMP
@@ -244,6 +357,8 @@ static void compare_traj(mjModel* mA, mjModel* mB, int nstep, const StateIn* st,
       for (int j = 0; j < 9; j++) { double d = reldev(dA->site_xmat[9 * ia + j], dB->site_xmat[9 * ib + j]); if (d > mx) mx = d; }
     }
     if (mA->nq == mB->nq) for (int j = 0; j < mA->nq; j++) { double d = reldev(dA->qpos[j], dB->qpos[j]); if (d > mx) mx = d; }
+    if (g_cmp_sensor && mA->nsensordata == mB->nsensordata)
+      for (int j = 0; j < mA->nsensordata; j++) { double d = reldev(dA->sensordata[j], dB->sensordata[j]); if (d > mx) mx = d; }
     nmatched = cnt;
     if (k == 0) mx0 = mx;
   }
@@ -273,6 +388,73 @@ static void op_pair(char** tok, int n) {
   } else compare_traj(mA, mB, nstep, &st, 1);
   if (mA) { mj_deleteModel(mA); mj_deleteSpec(sA); }
   if (mB) { mj_deleteModel(mB); mj_deleteSpec(sB); }
+}
+
+// ---- apair: descriptions made of several specs joined by mjs_attach
+#define MAXSPEC 8
+static mjModel* build_attached(mjSpec** keep, int* nkeep, char* err, int errsz) {
+  static char line[1 << 14];
+  mjSpec* sp[MAXSPEC]; int nsp = 0; int failed = 0;
+  *nkeep = 0;
+  sp[nsp] = mjb_build(stdin, err, errsz);
+  if (!sp[nsp]) failed = 1; else nsp++;
+  while (rdline(line, sizeof line)) {
+    char* w[12]; int k = 0; char* save; char* t = strtok_r(line, " \t\r\n", &save);
+    while (t && k < 12) { w[k++] = t; t = strtok_r(NULL, " \t\r\n", &save); }
+    if (!k || w[0][0] == '#') continue;
+    if (!strcmp(w[0], "done")) break;
+    if (!strcmp(w[0], "child")) {
+      char e2[600];
+      mjSpec* c = mjb_build(stdin, e2, sizeof e2);      // always consume the description
+      if (failed) { if (c) mj_deleteSpec(c); continue; }
+      if (!c) { snprintf(err, errsz, "child: %s", e2); failed = 1; continue; }
+      if (nsp == MAXSPEC) { mj_deleteSpec(c); snprintf(err, errsz, "too many specs"); failed = 1; continue; }
+      sp[nsp++] = c;
+      continue;
+    }
+    if (failed) continue;
+    int a, b;
+    if (!strcmp(w[0], "deepcopy") && k == 3 && geti(w[1], &a) && geti(w[2], &b) && a >= 0 && a < nsp) { mjs_setDeepCopy(sp[a], b); continue; }
+    if (!strcmp(w[0], "attach") && k == 9 && geti(w[1], &a) && geti(w[4], &b) && a >= 0 && a < nsp && b >= 0 && b < nsp) {
+      int pt = !strcmp(w[2], "body") ? mjOBJ_BODY : !strcmp(w[2], "frame") ? mjOBJ_FRAME : !strcmp(w[2], "site") ? mjOBJ_SITE : -1;
+      int ct = !strcmp(w[5], "body") ? mjOBJ_BODY : !strcmp(w[5], "frame") ? mjOBJ_FRAME : !strcmp(w[5], "model") ? mjOBJ_MODEL : -1;
+      mjsElement* pe = pt < 0 ? NULL : mjs_findElement(sp[a], (mjtObj)pt, w[3]);
+      const mjsElement* ce = ct < 0 ? NULL : ct == mjOBJ_MODEL ? sp[b]->element : mjs_findElement(sp[b], (mjtObj)ct, w[6]);
+      if (!pe || !ce) { snprintf(err, errsz, "attach: element %s / %s not found", w[3], w[6]); failed = 1; continue; }
+      if (!mjs_attach(pe, ce, strcmp(w[7], "~") ? w[7] : "", strcmp(w[8], "~") ? w[8] : "")) {
+        snprintf(err, errsz, "attach: %s", mjs_getError(sp[a])); failed = 1;
+      }
+      continue;
+    }
+    snprintf(err, errsz, "bad directive %s", w[0]); failed = 1;
+  }
+  mjModel* m = NULL;
+  if (!failed) {
+    m = mj_compile(sp[0], NULL);
+    if (!m) snprintf(err, errsz, "compile: %s", mjs_getError(sp[0]));
+  }
+  for (int i = 0; i < nsp; i++) keep[(*nkeep)++] = sp[i];
+  return m;
+}
+
+static void op_apair(char** tok, int n) {
+  int nstep, nstate; char err[700], errB[700];
+  if (n != 2 || !geti(tok[0], &nstep) || !geti(tok[1], &nstate) || nstep < 0 || nstep > 5000 || nstate < 0 || nstate > 3) { printf("bad-op\n"); return; }
+  static StateIn st;
+  if (!read_state(&st, nstate)) { printf("bad-op\n"); return; }
+  mjSpec* kA[MAXSPEC]; mjSpec* kB[MAXSPEC]; int nA = 0, nB = 0;
+  err[0] = errB[0] = 0;
+  mjModel* mA = build_attached(kA, &nA, err, sizeof err);
+  mjModel* mB = build_attached(kB, &nB, errB, sizeof errB);
+  if (!mA || !mB) {
+    for (char* c = err; *c; c++) if (*c == '\n') *c = ' ';
+    for (char* c = errB; *c; c++) if (*c == '\n') *c = ' ';
+    printf("error A:%s B:%s\n", mA ? "ok" : err, mB ? "ok" : errB);
+  } else { g_cmp_sensor = 1; compare_traj(mA, mB, nstep, &st, 1); g_cmp_sensor = 0; }
+  if (mA) mj_deleteModel(mA);
+  if (mB) mj_deleteModel(mB);
+  for (int i = 0; i < nA; i++) mj_deleteSpec(kA[i]);
+  for (int i = 0; i < nB; i++) mj_deleteSpec(kB[i]);
 }
 
 static unsigned lcg(unsigned* s) { *s = *s * 1664525u + 1013904223u; return *s >> 8; }
@@ -487,7 +669,9 @@ int main(void) {
     if (!strcmp(tok[0], "orient")) op_orient(tok + 1, n - 1);
     else if (!strcmp(tok[0], "frame")) op_frame(tok + 1, n - 1, 0);
     else if (!strcmp(tok[0], "frame2")) op_frame(tok + 1, n - 1, 1);
+    else if (!strcmp(tok[0], "att")) op_att(tok + 1, n - 1);
     else if (!strcmp(tok[0], "pair")) op_pair(tok + 1, n - 1);
+    else if (!strcmp(tok[0], "apair")) op_apair(tok + 1, n - 1);
     else if (!strcmp(tok[0], "defaults")) op_builtin_pair(tok + 1, n - 1, 0);
     else if (!strcmp(tok[0], "attach")) op_builtin_pair(tok + 1, n - 1, 1);
     else if (!strcmp(tok[0], "setconst")) op_setconst(tok + 1, n - 1);
